@@ -64,6 +64,14 @@ class BoundMethod:
         return self.func
 
 
+class EngineFn:
+    """A callable implemented by the engine (takes and returns engine values)."""
+    __slots__ = ('fn',)
+
+    def __init__(self, fn):
+        self.fn = fn
+
+
 class SymMethod:
     __slots__ = ('recv', 'name')
 
@@ -399,6 +407,8 @@ class Interp:
         if isinstance(f, types.MethodType):
             return self.call_function_object(f.__func__, [f.__self__] + list(args), kwargs, None,
                                              bound_self=f.__self__)
+        if isinstance(f, EngineFn):
+            return f.fn(*args, **kwargs)
         if isinstance(f, SymMethod):
             from . import models
             return models.call_sym_method(self, f.recv, f.name, list(args), kwargs)
@@ -522,6 +532,14 @@ class Interp:
 
     # ======================================================================= attributes
     def getattr(self, obj, name):
+        if isinstance(obj, SList) and name in ('src', 'pos_of', 'source'):
+            from .gens import YSeq
+            from .seqs import FilteredSList
+            if isinstance(obj, FilteredSList) and name == 'source':
+                return obj.source
+            if isinstance(obj, (YSeq, FilteredSList)) and name in ('src', 'pos_of'):
+                fn = obj.src_fn if name == 'src' else obj.pos_fn
+                return EngineFn(lambda k, fn=fn: wrap(fn(to_z3(k))))
         if isinstance(obj, Sym):
             if isinstance(obj, (SOpt, SChoice)):
                 return self.getattr(self.resolve(obj), name)
@@ -536,10 +554,7 @@ class Interp:
                 return obj.xs
         if isinstance(obj, (_models.SMap, _models.SIter)):
             return SymMethod(obj, name)
-        from .gens import YSeq
-        if isinstance(obj, YSeq) and name in ('src', 'pos_of'):
-            fn = obj.src_fn if name == 'src' else obj.pos_fn
-            return lambda k, fn=fn: wrap(fn(to_z3(k)))
+
         if isinstance(obj, SuperProxy):
             mro = type(obj.obj).__mro__ if not isinstance(obj.obj, type) else obj.obj.__mro__
             i = mro.index(obj.cls)
@@ -1264,7 +1279,8 @@ class Interp:
             src = self.eval(node.generators[0].iter, frame)
             if isinstance(src, (SOpt, SChoice)):
                 src = self.resolve(src)
-            if isinstance(src, SList):
+            from . import models as _models
+            if isinstance(src, (SList, _models.SIter, _models.SEnumerate)):
                 from . import seqs
                 return seqs.map_comprehension(self, node, frame, src)
             out = []
@@ -1306,6 +1322,18 @@ class Interp:
             return None
 
         first_iter = self.eval(node.generators[0].iter, frame)
+        if isinstance(first_iter, (SOpt, SChoice)):
+            first_iter = self.resolve(first_iter)
+        from . import models as _models
+        if isinstance(first_iter, (SList, _models.SIter, _models.SEnumerate)):
+            if len(node.generators) == 1 and not node.generators[0].ifs:
+                # element-wise image of a symbolic sequence (evaluated eagerly: the body must be pure)
+                from . import seqs
+                return _models.SIter(seqs.map_comprehension(self, node, frame, first_iter), 0)
+            if len(node.generators) == 1:
+                from . import seqs
+                return _models.SIter(seqs.filter_comprehension(self, node, frame, first_iter), 0)
+            raise Unsupported('nested generator expression over a symbolic sequence')
         node_gens = node.generators
 
         def runner2(gen):
